@@ -563,8 +563,12 @@ pub fn run_build(cfg: ExecConfig, opts: BuildOpts) -> ExecOutcome {
 
 pub const EPOCH0: u64 = 1_600_000_000;
 
+/// Logical time -> mtime.  Consecutive ticks are 250 ns apart and every fourth
+/// one crosses a second boundary, so a comparison that loses precision
+/// (seconds, milliseconds, microseconds) confuses neighbouring writes, while
+/// the order of ticks is the order of mtimes at full resolution.
 pub fn mtime_of(tick: u64) -> SystemTime {
-    SystemTime::UNIX_EPOCH + Duration::from_secs(EPOCH0 + tick)
+    SystemTime::UNIX_EPOCH + Duration::new(EPOCH0 + tick / 4, ((tick % 4) * 250) as u32)
 }
 
 pub fn write_file(path: &str, content: &[u8], tick: u64) {
